@@ -268,6 +268,42 @@ func ruleWrapCompose(p *Prog, r *Report, specs []wrapSpec) {
 			calls = p.moduleCalls(fn, 3)
 			direct = false
 		}
+		// a wrapper may delegate to a sibling wrapper of the same table (DocToJson → ByteDocToJson): the sibling's own documented
+		// composition, which is checked in its own right, stands for the call
+		if strings.Join(names(calls), ",") != strings.Join(sp.Calls, ",") {
+			var sub []string
+			via := ""
+			for _, c := range p.moduleCalls(fn, 0) {
+				cn := p.Name(c.Callee)
+				replaced := false
+				for _, other := range specs {
+					if other.Fn == cn && other.Fn != sp.Fn {
+						sub = append(sub, other.Calls...)
+						via = cn
+						replaced = true
+					}
+				}
+				if !replaced {
+					sub = append(sub, cn)
+				}
+			}
+			if via != "" && strings.Join(sub, ",") == strings.Join(sp.Calls, ",") {
+				r.OK(rule, sp.Fn, "composition", pos, "delegates to "+via+", whose documented composition completes "+strings.Join(sp.Calls, " then "))
+				for _, prm := range fn.Params {
+					hits := reachesCallArg(fn, prm, func(c *ssa.CallCommon) bool {
+						g := staticCallee(c)
+						return g != nil && p.InModule(g)
+					})
+					if len(hits) > 0 {
+						r.OK("FWD.param", sp.Fn, "parameter "+prm.Name(), pos, "flows into "+p.calleeName(hits[0].Common()))
+					} else {
+						r.Bad("FWD.param", sp.Fn, "parameter "+prm.Name(), pos, "parameter never reaches the wrapped call: the option/argument is silently ignored")
+					}
+				}
+				r.Assume(rule, sp.Fn, "data flow through the sibling wrapper", pos, "receiver chaining and result identity are checked in "+via+", not re-checked across the delegation")
+				continue
+			}
+		}
 		inner := ""
 		if strings.Join(names(calls), ",") != strings.Join(sp.Calls, ",") && wrapInnerOK[sp.Fn] {
 			// Copy: encoding a Map yields an object (or null), so the stages' own preambles (option resolution, the empty-input and
@@ -275,6 +311,25 @@ func ruleWrapCompose(p *Prog, r *Report, specs []wrapSpec) {
 			// same composition. Recorded as an assumption, not decided.
 			direct = true
 			calls = p.moduleCalls(fn, 0)
+			// an unexported helper that carries the whole composition is looked into, down to the stages' own inner functions
+			innerFns := map[*ssa.Function]bool{}
+			for _, sn := range sp.Calls {
+				if st := p.Fn(sn); st != nil {
+					for h := range returnsResultsOf(st) {
+						innerFns[h] = true
+					}
+				}
+			}
+			if len(calls) == 1 && !p.Exported(calls[0].Callee) && !innerFns[calls[0].Callee] {
+				var ex []mcall
+				for _, c := range p.moduleCalls(calls[0].Callee, 0) {
+					ex = append(ex, c)
+				}
+				if len(ex) == len(sp.Calls) {
+					calls = ex
+					direct = false
+				}
+			}
 			ns := names(calls)
 			if len(ns) == len(sp.Calls) {
 				for i := range ns {
@@ -1349,11 +1404,53 @@ func ruleWrapFileLoop(p *Prog, r *Report) {
 				}
 			}
 		})
+		api := fn
+		var fh ssa.Value
+		if open != nil {
+			fh = resultsOf(open)[0]
+		}
+		if n == 0 && open != nil && fh != nil {
+			// the loop may live in an unexported helper that is handed the opened file and whose results the function returns
+			eachInstr(api, func(b *ssa.BasicBlock, in ssa.Instruction) {
+				ci, ok := in.(*ssa.Call)
+				if !ok || n != 0 {
+					return
+				}
+				h := staticCallee(&ci.Call)
+				if h == nil || !p.InModule(h) || p.Exported(h) || len(h.Blocks) == 0 {
+					return
+				}
+				returned := false
+				for x := range forwardSlice(api, ci) { // through the result variables a deferred Close makes go/ssa spill to
+					if _, isRet := x.(*ssa.Return); isRet {
+						returned = true
+					}
+				}
+				if !returned {
+					return
+				}
+				for ai, a := range ci.Call.Args {
+					if ai >= len(h.Params) || !derivesFrom(a, fh) {
+						continue
+					}
+					cnt := 0
+					var hrc ssa.CallInstruction
+					eachInstr(h, func(b2 *ssa.BasicBlock, i2 ssa.Instruction) {
+						if c2, ok := i2.(ssa.CallInstruction); ok && staticCallee(c2.Common()) == rd {
+							cnt++
+							hrc = c2
+						}
+					})
+					if cnt == 1 {
+						fn, rc, n, fh = h, hrc, 1, h.Params[ai]
+					}
+				}
+			})
+		}
 		if n != 1 || open == nil {
 			r.Bad(rule, pr[0], "reader call", pos, fmt.Sprintf("expected one call of %s on a file opened with os.Open, found %d", pr[1], n))
 			continue
 		}
-		fh := resultsOf(open)[0]
 		if a := rc.Common().Args[0]; fh != nil && derivesFrom(a, fh) {
 			r.OK(rule, pr[0], "reads the opened file", p.Pos(rc.Pos()), pr[1]+" is applied to the os.Open result")
 		} else {
